@@ -35,29 +35,67 @@ NO_POOLED_INIT = ("GeneticAlgorithmOptimization", "ImperialistCompetitiveOptimiz
 # lazy executor
 # ---------------------------------------------------------------------------------------------------------
 class LazyFuture:
+    """the concurrent.futures.Future interface over an evaluation that runs when the schedule says so"""
+
     def __init__(self, fn, args, kwargs):
         self.fn, self.args, self.kwargs = fn, args, kwargs
-        self.done = False
+        self._done = False
+        self._cancelled = False
         self.value = None
         self.exc = None
+        self._callbacks = []
 
     def run(self):
-        if not self.done:
+        if not self._done:
             try:
                 self.value = self.fn(*self.args, **self.kwargs)
             except BaseException as e:  # noqa: BLE001 - re-raised from result(), like a real future
                 self.exc = e
-            self.done = True
+            self._done = True
+            for cb in self._callbacks:
+                cb(self)
 
     def result(self, timeout=None):
-        if timeout is not None and not self.done:
+        import concurrent.futures
+        if self._cancelled:
+            raise concurrent.futures.CancelledError()
+        if timeout is not None and not self._done:
             # the schedule owns time: an evaluation that has not completed yet may take longer than any timeout
-            import concurrent.futures
             raise concurrent.futures.TimeoutError()
         self.run()
         if self.exc is not None:
             raise self.exc
         return self.value
+
+    def exception(self, timeout=None):
+        import concurrent.futures
+        if self._cancelled:
+            raise concurrent.futures.CancelledError()
+        if timeout is not None and not self._done:
+            raise concurrent.futures.TimeoutError()
+        self.run()
+        return self.exc
+
+    def done(self):
+        return self._done or self._cancelled
+
+    def running(self):
+        return False
+
+    def cancelled(self):
+        return self._cancelled
+
+    def cancel(self):
+        if self._done:
+            return False
+        self._cancelled = True
+        return True
+
+    def add_done_callback(self, fn):
+        if self._done:
+            fn(self)
+        else:
+            self._callbacks.append(fn)
 
 
 class Schedule:
@@ -82,9 +120,21 @@ class LazyExecutor:
         return self
 
     def __exit__(self, *exc):
-        for f in self.futures:          # like a real pool: everything submitted has run when the pool closes
-            f.run()
+        self.shutdown()
         return False
+
+    def shutdown(self, wait=True, cancel_futures=False):
+        for f in self.futures:          # like a real pool: everything submitted has run when the pool closes
+            if cancel_futures:
+                f.cancel()
+            if not f.cancelled():
+                f.run()
+
+    def map(self, fn, *iterables, timeout=None, chunksize=1):
+        futures = [self.submit(fn, *args) for args in zip(*iterables)]
+        for _ in lazy_as_completed(futures):     # completion in the drawn order, results in submission order
+            pass
+        return (f.result() for f in futures)
 
     def submit(self, fn, *args, **kwargs):
         f = LazyFuture(fn, args, kwargs)
@@ -102,46 +152,80 @@ def lazy_as_completed(futures):
     if order != list(range(n)):
         s.reordered += 1
     for j in order:
-        futures[j].run()
+        if not futures[j].cancelled():
+            futures[j].run()
         yield futures[j]
 
 
+def lazy_wait(futures, timeout=None, return_when=None):
+    done = list(lazy_as_completed(futures))
+    return set(done), set()
+
+
 class _ParallelShim:
-    """stands in for helpers' `parallel` module alias (concurrent.futures) during a lazy case"""
+    """stands in for a module alias of concurrent.futures inside the library during a lazy case"""
     as_completed = staticmethod(lazy_as_completed)
+    wait = staticmethod(lazy_wait)
+    ThreadPoolExecutor = LazyExecutor
+    ProcessPoolExecutor = LazyExecutor
 
     def __getattr__(self, name):
         import concurrent.futures
         return getattr(concurrent.futures, name)
 
 
-def checked_get_pool_results(executors):
-    executors = list(executors)
-    res = _ORIG_GET_POOL_RESULTS(executors)
-    want = sorted(id(f.value) for f in executors)
-    got = sorted(id(r) for r in res)
-    if want != got and SCHED is not None:
-        SCHED.handoff_violations.append(f"{len(executors)} evaluations submitted, {len(res)} results handed back "
-                                        f"({len(set(got) - set(want))} foreign, {len(set(want) - set(got))} lost, "
-                                        f"{len(got) - len(set(got))} duplicated)")
-    return res
-
-
-_ORIG_GET_POOL_RESULTS = ph.get_pool_results
+def _checked(orig):
+    """the library's own hand-off function (if it has one under this name), wrapped with the conservation check"""
+    def checked_get_pool_results(executors, *a, **k):
+        executors = list(executors)
+        res = orig(executors, *a, **k)
+        try:
+            want = sorted(id(f.value) for f in executors)
+            got = sorted(id(r) for r in res)
+        except (AttributeError, TypeError):
+            return res                    # not a list of lazy futures / of results: nothing to compare
+        if want != got and SCHED is not None:
+            SCHED.handoff_violations.append(f"{len(executors)} evaluations submitted, {len(res)} results handed back "
+                                            f"({len(set(got) - set(want))} foreign, {len(set(want) - set(got))} lost, "
+                                            f"{len(got) - len(set(got))} duplicated)")
+        return res
+    checked_get_pool_results.__wrapped_by_verif__ = True
+    return checked_get_pool_results
 
 
 @contextlib.contextmanager
 def lazy_pools(keys):
+    """Every reference the library's modules hold to concurrent.futures (the module under any alias, the two executor
+    classes, as_completed, wait) is replaced by the lazy counterparts - found by identity, not by name, so that the
+    driver survives a reorganisation of the pool plumbing; a function called get_pool_results, where one exists, is
+    additionally wrapped with the hand-off conservation check."""
+    import concurrent.futures as cf
+    import sys
+    import types
     global SCHED
     SCHED = Schedule(keys)
-    saved = (pa.get_pool_executor, pa.get_pool_results, ph.parallel)
-    pa.get_pool_executor = lambda mode, workers=None: LazyExecutor()
-    pa.get_pool_results = checked_get_pool_results
-    ph.parallel = _ParallelShim()
+    shim = _ParallelShim()
+    swap = {id(cf.ThreadPoolExecutor): LazyExecutor, id(cf.ProcessPoolExecutor): LazyExecutor,
+            id(cf.as_completed): lazy_as_completed, id(cf.wait): lazy_wait, id(cf): shim}
+    saved = []
+    wrapped = {}
+    for mname, mod in list(sys.modules.items()):
+        if not (mname == "pyvolutionary" or mname.startswith("pyvolutionary.")) or mod is None:
+            continue
+        if mname.endswith((".hypertuner", ".multitask")):
+            continue                      # their process pools run whole trials; no C11 driver goes through them
+        for attr, val in list(vars(mod).items()):
+            if id(val) in swap:
+                saved.append((mod, attr, val))
+                setattr(mod, attr, swap[id(val)])
+            elif attr == "get_pool_results" and isinstance(val, types.FunctionType):
+                saved.append((mod, attr, val))
+                setattr(mod, attr, wrapped.setdefault(id(val), _checked(val)))
     try:
         yield SCHED
     finally:
-        pa.get_pool_executor, pa.get_pool_results, ph.parallel = saved
+        for mod, attr, val in saved:
+            setattr(mod, attr, val)
 
 
 # ---------------------------------------------------------------------------------------------------------
